@@ -26,7 +26,7 @@ for i in ids:
           "technique":TECH})
 m={"version":1,
 "setup_cmd":"cd /verif/engine && GOFLAGS=-mod=mod GOPROXY=off go build -o ../bin/gosym .",
-"hooks":{"guard":"verif","enable":"harness files tagged //go:build verif are injected as overlays (go/packages Config.Overlay for the symbolic run, go test -tags verif -overlay for native replay); /repo carries no hook code","baseline_off_cmd":"cd /repo && GOFLAGS=-mod=mod go test -json -vet=off -count=1 ./...","source_commits":[],"add_only":True},
+"hooks":{"guard":"verif","enable":"harness files tagged //go:build verif are injected as overlays (go/packages Config.Overlay for the symbolic run, go test -tags verif -overlay for native replay); the only hook code in /repo is the crash-point calls of commit 04499b7 (repl/verif_hook.go, object/verif_hook.go; no-ops without -tags verif)","baseline_off_cmd":"cd /repo && GOFLAGS=-mod=mod go test -json -vet=off -count=1 ./...","source_commits":["04499b7"],"add_only":True},
 "engines":[{"name":"gosym","path":"/verif/engine","serves_properties":sorted(CLAIMED),"kind_free_text":"symbolic executor for Go SSA (go/ssa v0.29.0) emitting SMT-LIB2 to z3 4.8.12; bounded symbolic model checking of the real code, regenerated from /repo's working tree on every run, with native replay of counterexamples"}],
 "checks":checks,
 "notes":"All checks decide their property by solver queries over symbolic executions of the real code within stated bounds (see evidence.coverage.bounds); nothing is claimed outside the bounds. Known findings are listed in /verif/known_findings.txt.",
